@@ -127,14 +127,20 @@ theorem closed_genIf_some {cond t e : Code} {a : Abs} {sb : St}
   exact closed_jump2 hc ht he (by decide) (by decide) (by unfold Bound2; omega)
     (by unfold Bound2; omega)
 
-theorem closed_assembleLoop {pre test bodyPre post : List Instr} {body : Code} {a : Abs}
-    {sb' : St} {il' : Bool}
+/-- `assembleLoop` is `LOOP; W; END_LOOP` with the `break` markers of the closed piece `W`
+patched -/
+theorem assembleLoop_shape {pre test bodyPre post : List Instr} {body : Code} {a : Abs}
     (hpre : ClosedB inR true K (ins pre) (none, loopA a) (none, loopA a))
     (htest : ClosedB inR true K (ins test) (none, loopA a) (none, loopA a))
     (hbp : ClosedB inR true K (ins bodyPre) (none, loopA a) (none, loopA a))
     (hbody : ClosedB inR true K body (none, loopA a) (none, loopA a))
     (hpost : ClosedB inR true K (ins post) (none, loopA a) (none, loopA a)) :
-    ClosedB inR il' K (assembleLoop pre test bodyPre body post) (none, a) sb' := by
+    ∃ (o1 o2 : Int) (W : Code),
+      W = (ins pre ++ ins test) ++ ([G.i (.jump .ifFalse o1)] ++
+        ((ins bodyPre ++ body ++ ins post) ++ ([G.i (.jump .always o2)] ++ []))) ∧
+      ClosedB inR true K W (none, loopA a) (none, loopA a) ∧
+      assembleLoop pre test bodyPre body post =
+        patchBreaks ([G.i .loop] ++ W) 0 (W.length + 1) ++ [G.i .endLoop] := by
   have hinner := (hbp.append hbody).append hpost
   have hL := hpre.append htest
   generalize hI : ins bodyPre ++ body ++ ins post = inner at hinner
@@ -150,28 +156,28 @@ theorem closed_assembleLoop {pre test bodyPre post : List Instr} {body : Code} {
       rw [e]
       refine ⟨by omega, by simp only [List.length_append, length_ins]; omega, ?_⟩
       rw [Int.toNat_natCast, run_append_left _ (Nat.le_refl _), hpre.fin])
-  have := closed_loop (il' := il') (sb' := sb') hW
-  have e : assembleLoop pre test bodyPre body post =
-      patchBreaks ([G.i Instr.loop] ++
-        ((ins pre ++ ins test) ++ ([G.i (Instr.jump JumpCond.ifFalse ((inner.length : Int) + 2))] ++
-          (inner ++ ([G.i (Instr.jump JumpCond.always
-            (-((test.length : Int) + 1 + inner.length)))] ++ [])))))
-        0 (((ins pre ++ ins test) ++ ([G.i (Instr.jump JumpCond.ifFalse ((inner.length : Int) + 2))] ++
-          (inner ++ ([G.i (Instr.jump JumpCond.always
-            (-((test.length : Int) + 1 + inner.length)))] ++ [])))).length + 1) ++
-        [G.i Instr.endLoop] := by
-    subst hI
-    simp only [assembleLoop, ins_append, ins_cons, ins_nil, List.append_assoc, List.length_append,
-      length_ins, List.length_cons, List.length_nil, List.singleton_append, List.cons_append,
-      List.nil_append, List.append_nil]
-    have h1 : ∀ (p t x : Nat), ((p + 1 : Nat) : Int) - ((p + 1 + t + 1 + x : Nat) : Int) =
-        -((t : Int) + 1 + (x : Nat)) := by intros; omega
-    have h2 : ∀ p t b c d : Nat, p + 1 + t + 1 + (b + (c + d)) + 1 =
-        p + (t + (b + (c + (d + (0 + 1))) + 1)) + 1 := by intros; omega
-    rw [h1, h2]
-  rw [e]
-  exact this
+  refine ⟨_, _, _, rfl, hW, ?_⟩
+  subst hI
+  simp only [assembleLoop, ins_append, ins_cons, ins_nil, List.append_assoc, List.length_append,
+    length_ins, List.length_cons, List.length_nil, List.singleton_append, List.cons_append,
+    List.nil_append, List.append_nil]
+  have h1 : ∀ (p t x : Nat), ((p + 1 : Nat) : Int) - ((p + 1 + t + 1 + x : Nat) : Int) =
+      -((t : Int) + 1 + (x : Nat)) := by intros; omega
+  have h2 : ∀ p t b c d : Nat, p + 1 + t + 1 + (b + (c + d)) + 1 =
+      p + (t + (b + (c + (d + (0 + 1))) + 1)) + 1 := by intros; omega
+  rw [h1, h2]
 
+theorem closed_assembleLoop {pre test bodyPre post : List Instr} {body : Code} {a : Abs}
+    {sb' : St} {il' : Bool}
+    (hpre : ClosedB inR true K (ins pre) (none, loopA a) (none, loopA a))
+    (htest : ClosedB inR true K (ins test) (none, loopA a) (none, loopA a))
+    (hbp : ClosedB inR true K (ins bodyPre) (none, loopA a) (none, loopA a))
+    (hbody : ClosedB inR true K body (none, loopA a) (none, loopA a))
+    (hpost : ClosedB inR true K (ins post) (none, loopA a) (none, loopA a)) :
+    ClosedB inR il' K (assembleLoop pre test bodyPre body post) (none, a) sb' := by
+  obtain ⟨o1, o2, W, -, hW, e⟩ := assembleLoop_shape hpre htest hbp hbody hpost
+  rw [e]
+  exact closed_loop hW
 
 /-! ## expressions, rvalues, calls: straight-line code -/
 
@@ -389,59 +395,60 @@ theorem ci_iterItems {items : List IterItem} (h : items.all (wsIterItem K) = tru
 
 /-! ## loops -/
 
+/-- every loop form is `assembleLoop` around instruction lists that are closed in every state -/
+theorem genLoop_parts {h : LoopHdr} (hh : wsHdr K h = true) :
+    ∃ pre test bp post, (∀ body, genLoop h body = assembleLoop pre test bp body post) ∧
+      (∀ inR, CI inR K pre) ∧ (∀ inR, CI inR K test) ∧ (∀ inR, CI inR K bp) ∧
+      (∀ inR, CI inR K post) := by
+  cases h with
+  | forever =>
+    exact ⟨_, _, _, _, fun body => by rw [genLoop], fun _ => CI.nil, fun _ => ci_one _ rfl,
+      fun _ => CI.nil, fun _ => CI.nil⟩
+  | while_ c =>
+    exact ⟨_, _, _, _, fun body => by rw [genLoop], fun _ => CI.nil, fun _ => ci_rv hh _,
+      fun _ => CI.nil, fun _ => CI.nil⟩
+  | count n =>
+    exact ⟨_, _, _, _, fun body => by rw [genLoop], fun _ => ci_rv hh _, fun _ => ci_counterTest,
+      fun _ => CI.nil, fun _ => ci_loopPost _⟩
+  | range v x y =>
+    simp only [wsHdr, Bool.and_eq_true] at hh
+    exact ⟨_, _, _, _, fun body => by rw [genLoop], fun _ => ci_indexVarRange hh.1 hh.2 true,
+      fun _ => ci_counterTest, fun _ => CI.nil, fun _ => ci_loopPost _⟩
+  | interp n v x y =>
+    simp only [wsHdr, Bool.and_eq_true] at hh
+    exact ⟨_, _, _, _, fun body => by rw [genLoop],
+      fun _ => (ci_rv hh.1.1 _).append (ci_indexVarRange hh.1.2 hh.2 false),
+      fun _ => ci_counterTest, fun _ => CI.nil, fun _ => ci_loopPost _⟩
+  | cycle n v start =>
+    simp only [wsHdr, Bool.and_eq_true] at hh
+    exact ⟨_, _, _, _, fun body => by rw [genLoop],
+      fun _ => (ci_rv hh.1 _).append (ci_cycleVarRange hh.2),
+      fun _ => ci_counterTest, fun _ => CI.nil, fun _ => ci_loopPost _⟩
+  | all lv w =>
+    exact ⟨_, _, _, _, fun body => by rw [genLoop],
+      fun _ => ((ci_one _ rfl).append ci_iterLights).append (ci_withClause hh),
+      fun _ => ci_counterTest, fun _ => ci_one _ rfl, fun _ => ci_loopPost _⟩
+  | groups lv w =>
+    exact ⟨_, _, _, _, fun body => by rw [genLoop],
+      fun _ => ((ci_one _ rfl).append (ci_iterSets _)).append (ci_withClause hh),
+      fun _ => ci_counterTest, fun _ => ci_one _ rfl, fun _ => ci_loopPost _⟩
+  | locations lv w =>
+    exact ⟨_, _, _, _, fun body => by rw [genLoop],
+      fun _ => ((ci_one _ rfl).append (ci_iterSets _)).append (ci_withClause hh),
+      fun _ => ci_counterTest, fun _ => ci_one _ rfl, fun _ => ci_loopPost _⟩
+  | iter items lv w =>
+    simp only [wsHdr, Bool.and_eq_true] at hh
+    exact ⟨_, _, _, _, fun body => by rw [genLoop],
+      fun _ => ((ci_one _ rfl).append (ci_iterItems hh.1)).append (ci_withClause hh.2),
+      fun _ => ci_counterTest, fun _ => ci_one _ rfl, fun _ => ci_loopPost _⟩
+
 theorem closed_genLoop {h : LoopHdr} {body : Code} {a : Abs} {sb' : St} {il' : Bool}
     (hh : wsHdr K h = true)
     (hbody : ClosedB inR true K body (none, loopA a) (none, loopA a)) :
     ClosedB inR il' K (genLoop h body) (none, a) sb' := by
-  have nil : ClosedB inR true K (ins []) (none, loopA a) (none, loopA a) := CI.nil _ _ _
-  cases h with
-  | forever =>
-    rw [genLoop]
-    exact closed_assembleLoop nil (ci_one _ rfl _ _ _) nil hbody nil
-  | while_ c =>
-    rw [genLoop]
-    exact closed_assembleLoop nil (ci_rv hh _ _ _ _) nil hbody nil
-  | count n =>
-    rw [genLoop]
-    exact closed_assembleLoop (ci_rv hh _ _ _ _) (ci_counterTest _ _ _) nil hbody
-      (ci_loopPost _ _ _ _)
-  | range v x y =>
-    rw [genLoop]
-    simp only [wsHdr, Bool.and_eq_true] at hh
-    exact closed_assembleLoop (ci_indexVarRange hh.1 hh.2 true _ _ _) (ci_counterTest _ _ _) nil
-      hbody (ci_loopPost _ _ _ _)
-  | interp n v x y =>
-    rw [genLoop]
-    simp only [wsHdr, Bool.and_eq_true] at hh
-    exact closed_assembleLoop (((ci_rv hh.1.1 _).append (ci_indexVarRange hh.1.2 hh.2 false)) _ _ _)
-      (ci_counterTest _ _ _) nil hbody (ci_loopPost _ _ _ _)
-  | cycle n v start =>
-    rw [genLoop]
-    simp only [wsHdr, Bool.and_eq_true] at hh
-    exact closed_assembleLoop (((ci_rv hh.1 _).append (ci_cycleVarRange hh.2)) _ _ _)
-      (ci_counterTest _ _ _) nil hbody (ci_loopPost _ _ _ _)
-  | all lv w =>
-    rw [genLoop]
-    exact closed_assembleLoop
-      ((((ci_one _ rfl).append ci_iterLights).append (ci_withClause hh)) _ _ _)
-      (ci_counterTest _ _ _) (ci_one _ rfl _ _ _) hbody (ci_loopPost _ _ _ _)
-  | groups lv w =>
-    rw [genLoop]
-    exact closed_assembleLoop
-      ((((ci_one _ rfl).append (ci_iterSets _)).append (ci_withClause hh)) _ _ _)
-      (ci_counterTest _ _ _) (ci_one _ rfl _ _ _) hbody (ci_loopPost _ _ _ _)
-  | locations lv w =>
-    rw [genLoop]
-    exact closed_assembleLoop
-      ((((ci_one _ rfl).append (ci_iterSets _)).append (ci_withClause hh)) _ _ _)
-      (ci_counterTest _ _ _) (ci_one _ rfl _ _ _) hbody (ci_loopPost _ _ _ _)
-  | iter items lv w =>
-    rw [genLoop]
-    simp only [wsHdr, Bool.and_eq_true] at hh
-    exact closed_assembleLoop
-      ((((ci_one _ rfl).append (ci_iterItems hh.1)).append (ci_withClause hh.2)) _ _ _)
-      (ci_counterTest _ _ _) (ci_one _ rfl _ _ _) hbody (ci_loopPost _ _ _ _)
-
+  obtain ⟨pre, test, bp, post, e, h1, h2, h3, h4⟩ := genLoop_parts hh
+  rw [e]
+  exact closed_assembleLoop (h1 inR _ _ _) (h2 inR _ _ _) (h3 inR _ _ _) hbody (h4 inR _ _ _)
 
 /-! ## statements -/
 
